@@ -477,7 +477,7 @@ pub fn record(args: &[String]) {
             };
             // "merge" must make a commit, "mergeff" must move HEAD: otherwise git did nothing
             let before = (repo.hashes.len(), repo.git(&["rev-parse", "HEAD"], None).unwrap_or_default());
-            let flow_before = if op == "commit" { (flow_out(&repo, "semver"), flow_out(&repo, "pep440"), observe(&repo, "auto")) } else { (None, None, json!({})) };
+            let flow_before = if op == "commit" || op == "merge" { (flow_out(&repo, "semver"), flow_out(&repo, "pep440"), observe(&repo, "auto")) } else { (None, None, json!({})) };
             if repo.apply(op, &arg).is_err() {
                 continue;
             }
@@ -492,7 +492,8 @@ pub fn record(args: &[String]) {
                 _ => {}
             }
             events.push(json!({"k": "op", "op": op, "arg": arg}));
-            if op == "commit" {
+            // a commit, or a merge commit (no fast-forward), is one more commit on the branch's first-parent chain
+            if op == "commit" || op == "merge" {
                 let after = (flow_out(&repo, "semver"), flow_out(&repo, "pep440"), observe(&repo, "auto"));
                 if let (Some(s0), Some(p0), Some(s1), Some(p1)) = (&flow_before.0, &flow_before.1, &after.0, &after.1) {
                     // same base tag before and after (a commit cannot change it) and a branch checked out
